@@ -64,7 +64,10 @@ def encGU (p : Nat × RemoteLimiter.State) : Json :=
 
 def encGw (g : Gw) : Json :=
   J.obj [("id", J.nat g.id), ("alive", J.bool g.alive), ("net", J.bool g.net),
-         ("ups", if g.alive then Json.arr ((g.ups.toArray.qsort (fun a b => a.1 < b.1)).map encGU) else Json.arr #[])]
+         -- the real `upstreamLimiter` of an upstream exists from the first schema sync on
+         ("ups", if g.alive then
+             Json.arr ((((g.ups.filter (fun p => p.2.cache.isSome)).toArray.qsort (fun a b => a.1 < b.1))).map encGU)
+           else Json.arr #[])]
 
 def encJudge (s : State) (nUp : Nat) : Json :=
   Json.arr ((List.range nUp).map fun u => Json.arr ((judgeU (obsU s u)).map Json.str).toArray).toArray
@@ -85,7 +88,7 @@ def doLoop (a : Json) : Except String Json := do
   let k8s ← J.getBool a "k8s"
   let ops ← (← J.getArr a "ops").toList.mapM decodeOp
   let shardOf := shardFn nShards
-  let mut s := init nShards nGw k8s
+  let mut s := init nShards nGw nUp k8s
   let mut outs : Array Json := #[]
   for sop in ops do
     let (op, ex) := fill shardOf s sop
